@@ -526,6 +526,17 @@ func init() {
 		if allConcrete(a) {
 			return p.nativeInvoke(reflect.ValueOf(strconv.FormatFloat), fn, a), true
 		}
+		if ft, ok := a[0].(*smt.Term); ok && allConcrete(a[1:]) {
+			// a value that depends on a few input bytes only: fork over it
+			if vals := p.enumValues(ft); vals != nil && len(vals) > 0 {
+				conds := make([]*smt.Term, len(vals))
+				for k, u := range vals {
+					conds[k] = p.C.Eq(ft, p.C.FP(math.Float64frombits(u)))
+				}
+				f := math.Float64frombits(vals[p.chooseVerified(conds)])
+				return p.nativeInvoke(reflect.ValueOf(strconv.FormatFloat), fn, []Value{f, a[1], a[2], a[3]}), true
+			}
+		}
 		return p.formatFloatSym(a[0].(*smt.Term)), true
 	}
 	externals["encoding/json.Marshal"] = func(p *Path, _ *frame, fn *ssa.Function, a []Value) (Value, bool) {
@@ -836,8 +847,10 @@ func (p *Path) symAddr(v Value) Value {
 	C := p.C
 	p.assume(C.And(C.BvUlt(C.BV(0x1000, 64), t), C.BvUlt(t, C.BV(1<<47, 64))))
 	p.assume(C.Eq(C.BvAnd(t, C.BV(7, 64)), C.BV(0, 64)))
-	for _, o := range p.objAddr {
-		p.assume(C.Not(C.Eq(o, t)))
+	// allocator model: objects are asked for their address in allocation
+	// order and addresses grow (at least one word apart); stated in DESIGN
+	if n := len(p.objAddr); n > 0 {
+		p.assume(C.BvUlt(C.BvAdd(p.objAddr[n-1], C.BV(7, 64)), t))
 	}
 	p.objAddr = append(p.objAddr, t)
 	p.addrOf[key] = t
